@@ -27,7 +27,7 @@ def atoms(facts, fn, only=None, canon=None):
 
     locs = {}
     for x in walk(fm.body):
-        if x.get("k") == "VarDecl" and not kids(x) and x["name"] not in locs:
+        if x.get("k") == "VarDecl" and x["name"] not in locs and x["did"] not in fm.assigned:
             locs[x["name"]] = "u%d" % (len(locs) + 1)
 
     def c(s):
@@ -88,7 +88,14 @@ def lhs_text(fm, n):
     n = strip(n)
     k = n.get("k")
     if k == "DeclRefExpr":
-        return "mutable:" + n.get("name", "?") if n.get("did") in fm.assigned else "var:" + n.get("name", "?")
+        if n.get("did") in fm.assigned:
+            return "mutable:" + n.get("name", "?")
+        d = fm.decls.get(n.get("did"))
+        if d is not None and d.get("k") == "VarDecl":
+            if d.get("t", "").rstrip().endswith("&") and kids(d):
+                return fm.origin(n)            # a reference: the target is what it was bound to
+            return "local:" + n.get("name", "?")   # a value: its own identity (numbered by the caller)
+        return fm.origin(n)
     if k in ("ArraySubscriptExpr",):
         a, b = kids(n)
         return lhs_text(fm, a) + "[" + fm.origin(b) + "]"
